@@ -158,10 +158,19 @@ def run_case(case):
         if any(e['act'][0] == 'kill' for e in case['plan']):
             fin = rec['final'] or {}
             km = fin.get('killed_msg') or [None, None]
+            withdrawn_in_time = any(a['kind'] == 'cancel_ret' and a['ret'] == ['value', True] for a in rec['acts'])
             if fin.get('state') == 'killed' and km[0] == 'ok' and (km[1] or {}).get('message') in [e['act'][1] for e in case['plan'] if e['act'][0] == 'kill']:
-                # the kill was carried out before its requester withdrew it: no wake-up is owed to a killed process
-                viol = []
-                obs['kill_carried_out'] = 1
+                if withdrawn_in_time and sum(1 for e in case['plan'] if e['act'][0] == 'kill') == 1:
+                    # the future kill() handed back was still pending when its requester cancelled it (the cancellation was accepted):
+                    # that kill is off -- the process lives on and the wake-up is owed to it
+                    viol = [judges.V('wakeup-lost', 'withdrawn-kill-carried-out:%s' % '>'.join(judges.act_pattern(rec, plan_only=True)),
+                                     'the kill was withdrawn by its requester while it was still pending (cancel() answered True), yet the process ended KILLED '
+                                     'with that text: the wake-up that followed went to a dead process')]
+                    obs['kill_withdrawn_runs'] = 1
+                else:
+                    # the kill was carried out before its requester withdrew it: no wake-up is owed to a killed process
+                    viol = []
+                    obs['kill_carried_out'] = 1
             else:
                 obs['kill_withdrawn_runs'] = 1
         if any(e['act'][0] == 'abort_task' for e in case['plan']):
